@@ -201,7 +201,8 @@ class Model(object):
         self.eval_num[k] = eval_num
         self.factorisation_current = False
 
-        if allow_kopt_update and self.objval[k] < self.objopt():
+        # (a NaN incumbent is never better than anything: without the isnan test a NaN at kopt would never be displaced)
+        if allow_kopt_update and (self.objval[k] < self.objopt() or np.isnan(self.objopt())):
             self.kopt = k
         return
 
@@ -250,7 +251,7 @@ class Model(object):
         self.num_pts += 1  # make sure npt is updated
         self.npt_so_far += 1
 
-        if obj < self.objopt():
+        if obj < self.objopt() or np.isnan(self.objopt()):
             self.kopt = self.npt() - 1
 
         self.factorisation_current = False
